@@ -1235,6 +1235,16 @@ class JavaFE:
             return o, buf.r
         return self.run(go)
 
+    def redecode(self, ctl, o, packet, data):
+        self.ctl = ctl
+
+        def go():
+            buf = JBuf(data)
+            m = self.find_method(o.cls.name, 'decode', '(Lio/netty/buffer/ByteBuf;)V')
+            self.exec_method(m, [o, buf])
+            return o, buf.r
+        return self.run(go)
+
     def reencode(self, ctl, o, cks_registered=True):
         self.ctl = ctl
 
